@@ -39,12 +39,13 @@ def pop(self, index=-1):
         raise KeyError('Set is empty')
 
     elem = self.items[index]
+    if index < 0:
+        index += len(self.items)
     del self.items[index]
     del self.map[elem]
-    if elem != -1:
-        for k, v in self.map.items():
-            if v >= index and v > 0:
-                self.map[k] = v - 1
+    for k, v in self.map.items():
+        if v > index:
+            self.map[k] = v - 1
     return elem
 
 
